@@ -9,16 +9,6 @@ import (
 	"verif/harness/sut"
 )
 
-// rapidChooser turns rapid draws into spelling choices.
-func rapidChooser(t *rapid.T) model.Chooser {
-	return func(n int) int {
-		if n <= 1 {
-			return 0
-		}
-		return rapid.IntRange(0, n-1).Draw(t, "spell")
-	}
-}
-
 // TestGenSound: every generated package must be accepted by yardl (generator soundness; this is
 // a self-test of the harness, not a property check).
 func TestGenSound(t *testing.T) {
